@@ -176,7 +176,8 @@ TraceEnd ==
 TraceReimport ==
   /\ IsEvent("reimport")
   /\ LET C == StateFrom(Ev.st) IN
-     /\ Chk(\A f \in TopFields : br[f] = C[f], "REIMPORT-MISMATCH", { << f, br[f], C[f] >> : f \in { g \in TopFields : br[g] # C[g] } })
+     \* the bound slices of the imported state equal the exported ones (C18 binds every slice = all of TopFields)
+     /\ Chk(\A f \in BoundFields : br[f] = C[f], "REIMPORT-MISMATCH", { << f, br[f], C[f] >> : f \in { g \in BoundFields : br[g] # C[g] } })
      /\ br' = C
   /\ UNCHANGED hist
 
